@@ -306,6 +306,15 @@ func runC16(c *core.Ctx) {
 	_, err = sh.ApplyRecorded(rec0)
 	c.Check(err)
 	obs.compareStores("after-import")
+	// irismod's own nft / mt genesis is outside TIBC: whatever it fails to restore is aligned
+	// silently (counted in the evidence) so that later reactions compare TIBC behaviour only
+	if a, b := X.DumpMap("nft", "mt"), sh.DumpMap("nft", "mt"); true {
+		if d := world.DiffDumps(a, b); len(d) > 0 {
+			obs.patch(d, a)
+			w.Stats.Add("irismod-genesis-keys-aligned", len(d))
+			w.Log.Add("irismod nft/mt stores differ after re-import in %d keys (aligned, not a TIBC finding): %s", len(d), diffSummary(d, 3))
+		}
+	}
 	// store differences reported above (known findings) were patched into the
 	// shadow; one more shared block persists the patches, then the TIBC gRPC
 	// queries must answer identically
